@@ -84,6 +84,8 @@ fn pass_1_internal(
     let mut cur_address = current_offset;
 
     for (line, item) in &segment.items {
+        #[cfg(feature = "verif-hooks")]
+        crate::verif_hooks::point("pass1.item");
         match item {
             Item::Label(name) => {
                 if let Some(_) = common_context.set_label(name.clone(), (segment.t, cur_address)) {
